@@ -36,6 +36,11 @@ CLAIMED = {
     technique='ast termination argument (read-size kind classification per match arm, loop-progress and well-founded-recursion rules) plus sibling cross-check decompiler arms vs VM handler tape-read shapes and formatter/domain classification against the compiler helpers',
     text='Termination of decompile_script is decided as a structural proof on the current source: every read size in every arm (and in the generated soft-fork handler) is a non-negative constant or unsigned decode, every loop iteration consumes at least one byte, recursion is only on bytes read from the same tape, and Tape.read is bounded - hence the pointer strictly increases below len(script) and recursion is well founded. The round trip is decided only structurally: each arm reads exactly the operand shape its VM handler reads, operands reach the listing through injective formatters, and the printed domain is accepted by the compiler helper. Byte equality for every program is not decided.',
     note='Trusted: CPython ast, tsa analyser. Out of scope: decompiler handlers registered by third parties. Known finding: DIV_INT/MOD_INT lossy print.'),
+ 'C16': dict(
+    level='other', ref='DESIGN.md 4 C16',
+    technique='ast decision-table extraction: CFG path conditions of the handler canonicalised to linear atoms and compared with the documented formula by exhaustive truth table; base;verify shape rule; (builders: template boolean domain)',
+    text='The property touches its values only through comparisons, so the orderings are finite: the if/elif/else formula of OP_CHECK_TIMESTAMP and OP_CHECK_EPOCH is extracted from the CFG (locals substituted, comparisons canonicalised to L >= 0 atoms) and shown equal to the documented formula on every assignment of the atoms - exhaustive over orderings including every boundary; the constraint decode is checked unsigned and the _VERIFY forms are base;verify. The three timestamp lock builders are decided by composing these tables over the embedded templates (C16.R4).',
+    note='Trusted: CPython ast, tsa analyser. Assumes the presence/type guards before the comparison only reject malformed inputs, and that push d<ts> and the unsigned decode agree for ts >= 0.'),
  'C19': dict(
     level='other', ref='DESIGN.md 4 C19',
     technique='interprocedural write-effect summaries (fixpoint over the call graph) used for an iteration/mutation conflict rule, a who-may-write rule for the module-level registries with call-graph unreachability from run/compile entry points, guard dominance for set semantics, and a mutable-default escape rule',
